@@ -93,6 +93,42 @@ def query_side(ctx, h, res):
             res.violation("KEY", NB, "differs-in=" + "+".join(diff),
                           f"after a query with settings {s1}, the query with settings {s2} returns {res2[1]} with caching on but {res2[0]} with caching off (memo key ignores {diff})")
     res.rule("KEY", m)
+    # object lifetime: a filter callable that was dropped after its query may hand its address (id) on to the next one
+    k = 0
+    for d_, u_ in itertools.product(("FORWARD", "ANY"), c04.UHS[:2]):
+        try:
+            outs = [lifetime_scenario(h, caching, d_, u_) for caching in (False, True)]
+        except Unknown as u:
+            res.ob(False)
+            res.undecide(f"KEY-LIFETIME {d_},{u_}: {u}")
+            continue
+        k += 1
+        ok = outs[0][0] == outs[1][0]
+        res.ob(ok, sig=("key-lifetime", d_, u_))
+        if not ok:
+            res.violation("KEY-LIFETIME", NB, "second-filter-allocated-where-the-first-one-lived",
+                          f"caching on: neighbors(a, {d_}, {u_}, f1) with a throw-away filter f1; f1 is dropped (nothing references it any more) and a new filter f2 is allocated at its address (id(f2) == the old "
+                          f"id(f1)); neighbors(a, {d_}, {u_}, f2) then answers {outs[1][0]} where the uncached answer is {outs[0][0]}",
+                          replay="from edgegraph.structure import *\nfrom edgegraph.traversal import helpers\nVertex.NEIGHBOR_CACHING = True\na, b, c = Vertex(), Vertex(), Vertex(); DirectedEdge(a, b); DirectedEdge(a, c)\n"
+                                 "print(helpers.neighbors(a, filterfunc=lambda e, v: v is b), helpers.neighbors(a, filterfunc=lambda e, v: v is c))   # CPython allocates the second lambda where the first one was")
+    res.rule("KEY-LIFETIME", k)
+
+
+def lifetime_scenario(h, caching, d_="ANY", u_="NEIGHBOR"):
+    """-> (names of neighbors(a, f2), a, others, links): f1 rejects others[0], is used once and dropped; f2 rejects others[3]."""
+    fn = h.fn(NB)
+    C = c04.consts(h)
+    rows = [("DirectedEdge", "v1"), ("DirectedEdge", "v2"), ("SymTwo", "v1"), ("UnDirectedEdge", "v2")]
+    h.reset()
+    a, links, others = c04.build(h, rows)
+    set_flag(h, caching)
+    mk = h.sym["make_reject"]
+    f1 = h.I.call(mk, [others[0]], {})
+    h.call(fn, a, C[d_], C[u_], f1)
+    f2 = h.I.call(mk, [others[3]], {})
+    h.reuse_id(f2, f1, [a] + links + others)
+    o = h.call(fn, a, C[d_], C[u_], f2)
+    return (names(o.value) if o.kind == "return" else o.excname), a, others, links, f2
 
 
 def memo_rule(ctx, res):
@@ -356,6 +392,9 @@ def run(ctx):
     registry(ctx, h, res)
     interleave(ctx, h, res)
     only_neighbors(ctx, res)
+    from rules import hist
+    hist.run(ctx, res, 'C05')       # composition: histories through the public API against the reference model (rules/hist.py)
+    common.vacuity(res, "HISTORY", 14000)
     common.vacuity(res, "CACHED-EQ", 540)
     key_args_rule(ctx, res)
     common.vacuity(res, "KEY", 300)
